@@ -5,7 +5,7 @@ from __future__ import annotations
 import itertools, json, math, random
 from ..core import Check, MachineryFailure
 from .. import tlc
-from ..stdp_eval import close
+from ..stdp_eval import close, evaluate
 
 LN2 = math.log(2.0)
 
@@ -79,6 +79,37 @@ def c08_hp(rule: str, mode: str, sp: int, sn: int, dt: float, rng: random.Random
     return hp
 
 
+def with_form(hp: dict, keys, form: str, rng: random.Random, shape=None) -> dict:
+    """The same hyperparameters in another calling form.  form: "float" (python floats), "t0"
+    (0-d tensors), "mixed" (each key float or 0-d tensor), "tsyn" (kernel keyword arguments only:
+    some keys become per-synapse tensors [N][M] whose values - and, for learning rates, signs -
+    differ between synapses)."""
+    hp = dict(hp)
+    f = {}
+    for n, k in enumerate(keys):
+        if k not in hp:
+            continue
+        kind = {"float": "float", "t0": "t0", "mixed": rng.choice(["float", "t0"]),
+                "tsyn": rng.choice(["tsyn", "tsyn", "t0", "float"])}[form]
+        if kind == "tsyn":
+            N, M = shape
+            fac = [1.0, 1.25, -0.75] if k.startswith("lr") else [1.0, 1.25, 0.6]
+            hp[k] = [[hp[k] * fac[(o + 2 * i + n) % 3] for i in range(M)] for o in range(N)]
+        if kind != "float":
+            f[k] = kind
+    hp["form"] = f
+    return hp
+
+
+def syn_hp(hp: dict, o: int, i: int) -> dict:
+    """Hyperparameters of synapse (o, i) when some are given per synapse."""
+    return {k: (v[o][i] if isinstance(v, list) else v) for k, v in hp.items() if k != "form"}
+
+
+def per_synapse(hp: dict) -> bool:
+    return any(isinstance(v, list) for v in hp.values())
+
+
 def spec_rule(rule: str) -> str:
     return {"stable_stdp": "stdp", "stable_triplet": "triplet"}.get(rule, rule)
 
@@ -143,3 +174,86 @@ def replay_file(path: str, family: str, trace_module: str) -> int:
         ok = compare(exp["pos"], last[0]) and compare(exp["neg"], last[1])
         return 0 if ok else 1
     return 0
+
+
+# ----------------------------------------------------------------- several cells, one trainer
+def multi_cells(chk: Check, mm: Mismatch, *, variant: str, hdrs: list, via: str, T: int, rng: random.Random,
+                three: bool, dyadic: bool, expect, params, delay_of=None, guards: bool = False, on_edge=None):
+    """Two or three 1x1 cells with DIFFERENT hyperparameters trained by ONE trainer (per-cell
+    register_cell overrides): every cell must follow the specification with its own
+    hyperparameters (no state or hyperparameter leaks between cells).  Three-factor rules are
+    also called with `cells=[...]`: a cell that is not listed accumulates nothing at that step
+    (documented), but keeps its history.  With guards=True, after the first step cell 1 is put
+    in evaluation mode and the last cell loses its updater: the trainer must skip them without
+    raising and cell 0 must be unaffected.
+
+    expect(j, xs, ys, t, r, d) -> admissible symbolic values; params(j, factor) -> Params;
+    delay_of(j, t) -> delay of cell j at step t in steps (None: leave the header's delay)."""
+    import torch
+    from ..impl_stdp import MultiRun
+    n = len(hdrs)
+    sig = {"site": "multi-cell", "rule": variant, "via": via, "guards": guards}
+    xs = [tuple(rng.randint(0, 1) for _ in range(T)) for _ in range(n)]
+    ys = [tuple(rng.randint(0, 1) for _ in range(T)) for _ in range(n)]
+    rep = {"hdrs": hdrs, "via": via, "pre": xs, "post": ys}
+    try:
+        run = MultiRun(hdrs, via=via)
+    except Exception as e:
+        mm.add(dict(sig, clause="Raised", where="register", exc=type(e).__name__), dict(rep, error=repr(e)))
+        return 0
+    steps, edges = [], 0
+    evald = dropped = None
+    for t in range(T):
+        if guards and t == 1:
+            evald, dropped = 1, n - 1
+            run.layers[evald].cell.eval()
+            del run.layers[dropped].connection.updater
+        inputs = [(torch.tensor([[bool(xs[j][t])]]), torch.tensor([[bool(ys[j][t])]])) for j in range(n)]
+        r = rng.choice((-1, 0, 1, 2)) if three else 1
+        unit = rng.choice([1.0, 0.7]) if three and not dyadic else 1.0
+        scale = rng.choice([1.0, 0.5]) if three else 1.0
+        sel = None
+        if three and rng.random() < 0.4:
+            sel = [run.names[rng.randrange(n)]]
+        ds = [None] * n
+        if delay_of:
+            for j in range(n):
+                ds[j] = delay_of(j, t)
+                if ds[j] is not None:
+                    run.set_delay(ds[j], j)
+        steps.append({"r": r, "unit": unit, "scale": scale, "cells": sel, "d": ds})
+        try:
+            run.forward_layers(inputs)
+            run.train(r * unit, scale, sel)
+            outs = [None if j == dropped else run.read(j) for j in range(n)]
+        except Exception as e:
+            mm.add(dict(sig, clause="Raised", where="step", exc=type(e).__name__),
+                   dict(rep, steps=steps, t=t, error=repr(e)))
+            return edges
+        for j in range(n):
+            if j == dropped or j == evald:
+                continue                      # skipped by the trainer's guard: only "no exception" is required
+            gp, gn = float(outs[j][0].reshape(-1)[0]), float(outs[j][1].reshape(-1)[0])
+            if sel is not None and run.names[j] not in sel:
+                alts_v = [(0.0, 0.0)]
+            else:
+                P = params(j, unit * scale)
+                alts_v = [evaluate(b, P) for b in expect(j, xs[j], ys[j], t, r, ds[j])]
+                if on_edge:
+                    on_edge(j, xs[j], ys[j], t, r, ds[j])
+            edges += 1
+            if not any(compare(p, gp) and compare(q, gn) for p, q in alts_v):
+                p, q = alts_v[0]
+                mm.add(dict(sig, clause="PosOK" if not compare(p, gp) else "NegOK", cell=j,
+                            unlisted=bool(sel is not None and run.names[j] not in sel)),
+                       dict(rep, steps=steps, t=t, cell=j, expected={"pos": p, "neg": q},
+                            observed={"pos": gp, "neg": gn}))
+                return edges
+    if guards:
+        try:
+            run.trainer.eval()
+            run.train(1.0, 1.0, None)        # a trainer in evaluation mode is a no-op for every cell
+            run.trainer.train()
+        except Exception as e:
+            mm.add(dict(sig, clause="Raised", where="eval-mode", exc=type(e).__name__), dict(rep, error=repr(e)))
+    return edges
